@@ -15,7 +15,7 @@ DECL_INPUT(ct_in);
 	MKBUF(buf, I.buf, I.inlen); const uint8_t *in = buf; size_t inlen = I.inlen
 
 /* C is an exact-size heap object: a copy longer than the 255-byte ciphertext field runs off its end */
-//@job name=sm2_ciphertext_from_der props=C02,C06,C14 enforce=sm2_ciphertext_from_der replace=asn1_type_from_der,asn1_integer_from_der_ex,asn1_length_le,asn1_length_is_zero,asn1_check,memcpy timeout=1800
+//@job name=sm2_ciphertext_from_der props=C02,C06,C14 enforce=sm2_ciphertext_from_der replace=asn1_type_from_der,asn1_integer_from_der_ex,asn1_length_le,asn1_length_is_zero,asn1_check,memcpy timeout=3600 tier=thorough
 void h_sm2_ciphertext_from_der(void)
 {
 	RD_SETUP; SM2_CIPHERTEXT *C = malloc(sizeof(SM2_CIPHERTEXT)); ASSUME(C != NULL);
@@ -25,7 +25,7 @@ void h_sm2_ciphertext_from_der(void)
 	CANARY("returned");
 }
 
-//@job name=sm2_ciphertext_to_der props=C02,C06,C14 enforce=sm2_ciphertext_to_der replace=asn1_integer_to_der_ex,asn1_type_to_der,asn1_header_to_der timeout=2400
+//@job name=sm2_ciphertext_to_der props=C02,C06,C14 enforce=sm2_ciphertext_to_der replace=asn1_integer_to_der_ex,asn1_type_to_der,asn1_header_to_der timeout=3600 tier=thorough
 void h_sm2_ciphertext_to_der(void)
 {
 	INPUT(ct_in, W); SM2_CIPHERTEXT *C = malloc(sizeof(SM2_CIPHERTEXT)); ASSUME(C != NULL); C->ciphertext_size = W.size;
